@@ -188,7 +188,9 @@ def gen_plan(seed, cfg):
     hk["twin"] = 0
     plan = {"engine": "S", "run_seed": seed, "hashseed": bucket, "capacity": CAP_BY_BUCKET[bucket],
             "heap": hk, "ops": ops, "gc_faults": sorted(faults)}
-    threaded = rng.random() < (0.35 if tier == "thorough" else 0.08)
+    if len(ops) <= 4 and tier == "thorough" and rng.random() < 0.1:
+        plan["gc_sweep"] = True
+    threaded = not plan.get("gc_sweep") and rng.random() < (0.35 if tier == "thorough" else 0.08)
     sp = {"strategy": "coin", "p_hot": rng.choice([0.02, 0.05, 0.1, 0.3]),
           "p_cold": rng.choice([0.0, 0.001]), "p_gc": rng.choice([0.0, 0.005, 0.02]),
           "lock_points": False}
@@ -309,6 +311,9 @@ class Run:
         self.gc_freed_blocks = 0
         self.opkinds = []
         self.deleted_kernel_output = False
+        self.count_lines = False
+        self.lines_per_op = {}
+        self._line_counter = None
         self.orphaned = {}
         self.orphan_ids = set()
         self.op_kernel = {}
@@ -332,10 +337,11 @@ class Run:
     # ------------------------------------------------------------ tracing with GC faults
     def traced(self, fn, targets):
         """Run fn(); at the k-th counted line event (k in targets) run the collector."""
-        if not targets or self.threaded:
+        if (not targets and not self.count_lines) or self.threaded:
             return fn()
         files = _counted_codes()
         count = [0]
+        self._line_counter = count
         tset = set(targets)
         run = self
 
@@ -798,6 +804,9 @@ class Run:
             self.check_collected(at)
         self.log.append((i, kind, outcome, heap.trace[t0:]))
         self.opkinds.append(kind)
+        if self._line_counter is not None:
+            self.lines_per_op[i] = self._line_counter[0]
+            self._line_counter = None
 
     def run(self):
         heap = self.heap
@@ -834,10 +843,50 @@ class Run:
         return self
 
 
+def _gc_sweep(plan):
+    """Fault enumeration for one short history: a collection at EVERY counted trace line of every
+    operation, one at a time.  Returns (violations, points)."""
+    import copy
+
+    base = copy.deepcopy(plan)
+    base["gc_faults"] = []
+    first = Run(base)
+    first.count_lines = True
+    first.run()
+    vio = list(first.violations)
+    points = 0
+    for i, n in sorted(first.lines_per_op.items()):
+        for k in range(n):
+            p = copy.deepcopy(base)
+            p["gc_faults"] = [[i, k]]
+            r = Run(p).run()
+            points += 1
+            for v in r.violations:
+                v = dict(v)
+                v["detail"] = list(v.get("detail", [])) + [f"gc at op {i} line {k}"]
+                vio.append(v)
+            if vio:
+                return vio, points, p
+    return vio, points, None
+
+
 def run_plan(plan, cfg=None):
     _ensure_capacity(plan["capacity"])
     _warm()
+    sweep_points = 0
+    sweep_vio = []
+    if plan.get("gc_sweep") and plan.get("threads", 1) == 1:
+        sweep_vio, sweep_points, failing = _gc_sweep(plan)
+        if failing is not None:
+            # the plan that fails becomes the plan of record (it replays alone)
+            plan.clear()
+            plan.update(failing)
+            plan["gc_sweep"] = False
     r = Run(plan).run()
+    r.violations = list(r.violations) + [v for v in sweep_vio]
+    if sweep_points:
+        r.probes["gc_sweep_points_enumerated"] = sweep_points
+        r.probes["histories_with_full_gc_sweep"] = 1
     heap = SIM.heap
     if r.inconclusive:
         return {"verdict": "inconclusive", "skip": r.inconclusive, "violations": [], "stats": {},
